@@ -1,4 +1,5 @@
 import RpcVerif.Lemmas.StreamInv
+import RpcVerif.Generated.ServerFacts
 /-
   C10 — Closing a stream or losing its connection unblocks both ends.
   Over T (both ends of the stream layer of one connection): a reader is never left parked on a
@@ -51,8 +52,16 @@ theorem C10_close_is_local (s s' : T.State) (q : Nat) (h : T.step s (.cClose q) 
     s'.ucalls = s.ucalls ∧ s'.ss = s.ss ∧ s'.s2c = s.s2c ∧ ∀ c, c.seq ≠ q → (c ∈ s'.cs ↔ c ∈ s.cs) :=
   T.cClose_frame s s' q h
 
-/-- The same teardown is present in poll mode (fact read from server.go listen). -/
-theorem C10_poll_mode_teardown_closes_streams : Gen.streamPollTeardownClosesStreams = true := by decide
+/-- The same teardown is present in poll mode, and it cannot overtake a stream-open request that
+    has been read but not yet dispatched: the serve callback holds the connection's receive lock
+    from ReadMessage to dispatch (facts read from server.go listen). -/
+theorem C10_poll_mode_teardown_closes_streams :
+    (Gen.streamPollTeardownClosesStreams && Gen.pollReadAndDispatchUnderReceiveLock) = true := by decide
+
+/-- T's `read` step (test `closed`, else take an event, else park) is one step because ReadMessage
+    tests the flag under the stream's mutex — the mutex cond.Wait releases — so that stop() cannot
+    fall between the test and the wait (fact read from stream.go). -/
+theorem C10_read_is_atomic_with_respect_to_stop : Gen.streamReadTestsClosedUnderLock = true := by decide
 
 /-! Non-vacuity: a parked client reader and a parked handler; the link is cut; both ends learn of
     it; both readers have returned the error. -/
